@@ -97,7 +97,20 @@ func (r *Rec) Sample(v any) {
 }
 
 // Infra marks the run as an infrastructure failure (never a verdict).
-func (r *Rec) Infra(msg string) { r.mu.Lock(); r.infra = msg; r.mu.Unlock() }
+func (r *Rec) Infra(msg string) {
+	r.mu.Lock()
+	defer r.mu.Unlock()
+	// A set-up step that fails after the monitor has already observed plenty (typically a
+	// wall-clock timeout on a saturated machine) cuts the run short; it does not erase what was
+	// observed. It is recorded as an inconclusive episode. A monitor that could observe nothing
+	// (or too little) is an infrastructure failure.
+	if r.evals > 0 && len(r.distinct) >= r.MinDistinct && len(r.distinct) >= 10 {
+		r.inconclusive++
+		r.extra["run_cut_short_by"] = msg
+		return
+	}
+	r.infra = msg
+}
 
 func (r *Rec) Inconclusive(n int) { r.mu.Lock(); r.inconclusive += n; r.mu.Unlock() }
 
